@@ -222,7 +222,9 @@ def tables(prog, chk):
             if n.get("k") == "Tup" and len(n["items"]) == 2 and all(hirq.lit_str(x) for x in n["items"]):
                 for l in lits or [hirq.WILD]:
                     got[l] = (hirq.lit_str(n["items"][0]), hirq.lit_str(n["items"][1]))
-    chk.ob(got == XYLOC_REF, "A15.selection-tables", "xy-loc", ec_fn.where(), "xy-loc selects the anchor attribute pair (t: cx,y1 ... default x,y)", f"xy-loc table is {got}")
+    # a literal `match` table must agree with the reference entry by entry; that every letter is handled (also when
+    # the table is written some other way) is decided by the evaluated site shorthand-positions (cases rect:xy@<letter>)
+    chk.ob(all(XYLOC_REF.get(k) == v for k, v in got.items()), "A15.selection-tables", "xy-loc", ec_fn.where(), "xy-loc selects the anchor attribute pair (t: cx,y1 ... default x,y)", f"xy-loc table is {got}")
 
 
 def _deep_pat_strs(pat):
